@@ -148,6 +148,16 @@ fn base_program(rng: &mut Rng) -> Vec<Node> {
                 let b = Node::Data { label: None, width: 2, ops: vec![DataOp::E(E::Lit(0x5000 + marker, 1))] };
                 v.push(Node::Cond { arms: vec![Arm { cond, body: vec![a] }], else_body: Some(vec![b, Node::Raw("this branch may hold anything when unselected".into())]).filter(|_| t).or(Some(vec![Node::Data { label: None, width: 2, ops: vec![DataOp::E(E::Lit(0x6000 + marker, 1))] }])) });
             }
+            9 if rng.chance(1, 2) => {
+                // a chain whose taken branch is followed by an .elif (and an .else): as the last thing of a file it leaves
+                // nothing open
+                let d = |x: i64| Node::Data { label: None, width: 2, ops: vec![DataOp::E(E::Lit(x, 1))] };
+                let first = rng.chance(1, 2);
+                v.push(Node::Cond {
+                    arms: vec![Arm { cond: Cond::Expr(E::Lit(first as i64, 0)), body: vec![d(0x4100 + marker)] }, Arm { cond: Cond::Expr(E::Lit(1, 0)), body: vec![d(0x4200 + marker)] }, Arm { cond: Cond::Expr(E::Lit(1, 0)), body: vec![d(0x4300 + marker)] }],
+                    else_body: if rng.chance(1, 2) { Some(vec![d(0x4400 + marker)]) } else { None },
+                });
+            }
             9 => v.push(Node::Message(if rng.chance(1, 2) { MsgKind::Message } else { MsgKind::Warning }, format!("note {}", marker))),
             10 => {
                 v.push(Node::Seg(Seg::Data));
